@@ -264,6 +264,10 @@ class IrcMsg(object):
                 else:
                     self.command = msg.command
                 if args:
+                    # Same check as without msg=: the outFilter rewriters
+                    # (Filter, BadWords, Google, ShrinkUrl) build their
+                    # message this way from text they computed or fetched.
+                    assert all(ircutils.isValidArgument, args), args
                     self.args = args
                 else:
                     self.args = msg.args
